@@ -27,17 +27,19 @@
 (***************************************************************************)
 EXTENDS SearchLifecycle, Json
 
-VARIABLES act,      \* the step just taken
+VARIABLES act,      \* the step just taken, as a JSON string (one line per state in TLC's output)
+          last,     \* ... and as a record (for the scenario goals below)
           selfend,  \* search id -> the search work ends by itself (depth limit)
           waits,    \* search id -> iterations of the wait loop seen
           tpolls    \* timer id -> iterations of the timer loop seen
 
-gvars == <<vars, act, selfend, waits, tpolls>>
+gvars == <<vars, act, last, selfend, waits, tpolls>>
 
 MaxLoop == 2
 
 GInit == /\ Init
          /\ act = "init"
+         /\ last = [l |-> "init", k |-> "c", i |-> 0, x |-> "", srch |-> FALSE, nres |-> 0, spawn |-> 0, alive |-> 0]
          /\ selfend = [g \in SIds |-> FALSE]
          /\ waits = [g \in SIds |-> 0]
          /\ tpolls = [t \in TIds |-> 0]
@@ -46,8 +48,10 @@ GInit == /\ Init
 Spawned == IF \E t \in TIds : tpc[t] = "unborn" /\ tpc'[t] # "unborn"
            THEN CHOOSE t \in TIds : tpc[t] = "unborn" /\ tpc'[t] # "unborn" ELSE 0
 
-\* (a JSON string: one line per state in TLC's simulation output)
-Log(l, k, i, x) == act' = ToJson([l |-> l, k |-> k, i |-> i, x |-> x, srch |-> Searching', nres |-> Len(results'), spawn |-> Spawned])
+Rec(l, k, i, x) == [l |-> l, k |-> k, i |-> i, x |-> x, srch |-> Searching', nres |-> Len(results'), spawn |-> Spawned,
+                    alive |-> Cardinality({t \in TIds : tpc'[t] \notin {"unborn", "dead"}})]   \* timer goroutines alive after the step
+Log(l, k, i, x) == /\ last' = Rec(l, k, i, x)
+                   /\ act' = ToJson(Rec(l, k, i, x))
 Keep == UNCHANGED <<selfend, waits, tpolls>>
 
 \* ---------------------------------------------------------------- controller
@@ -65,13 +69,15 @@ GCtrl ==
     \/ StartSpawn /\ Keep /\ Log("c.start.spawn", "c", nstarts + 1, "")
     \/ StartAcq2 /\ Keep /\ Log("c.start.acq2", "c", 0, "")
     \/ StartRel /\ Keep /\ Log("c.start.rel", "c", 0, "")
-    \/ CallStop /\ Keep /\ Log("c.stop.set", "c", 0, "")
+    \/ \E k \in {"stop", "newgame"} : CallStop /\ Keep /\ Log("c.stop.set", "c", 0, k)     \* NewGame = StopSearch, then the tables are cleared
     \/ CallWait /\ Keep /\ Log("call.wait", "c", 0, "")
     \/ WaitAcq /\ Keep /\ Log("c.wait.acq", "c", 0, IF cpc'[2] = "queued" THEN "queued" ELSE "ok")
     \/ WaitGranted /\ Keep /\ Log("c.wait.acq", "c", 0, "granted")
     \/ WaitRel /\ Keep /\ Log("c.wait.rel", "c", 0, "")
     \/ CallPonderHit /\ Keep /\ Log("call.ponderhit", "c", 0, IF Searching /\ limits = "ponder" THEN "timer" ELSE "none")
-    \/ CallIsSearching /\ Keep /\ Log("call.issearching", "c", 0, "")
+    \* the calls that only look at the lifecycle: IsSearching itself, and ClearHash / ResizeCache (refused exactly while
+    \* IsSearching) and IsReady (answered in every state)
+    \/ \E q \in {"issearching", "clearhash", "resize", "isready"} : CallIsSearching /\ Keep /\ Log("call.query", "c", 0, q)
 
 \* ---------------------------------------------------------------- search goroutine
 GRunWork(g) ==
@@ -137,6 +143,39 @@ GTick == Tick /\ Keep /\ Log("tick", "x", 0, "")
 GNext == GCtrl \/ (\E g \in SIds : GSearch(g)) \/ (\E t \in TIds : GTimer(t)) \/ GTick
 
 GSpec == GInit /\ [][GNext]_gvars
+
+\* ---------------------------------------------------------------- scenario goals
+\* Interleavings worth forcing that a random walk through the model hardly ever takes.  Each goal is a state predicate; TLC is
+\* asked for the invariant "never Goal(n)" and its counterexample - the shortest behaviour that gets there - is replayed in the
+\* real engine like the simulated behaviours (the replayer finishes the run freely and the property monitors judge it).
+Owner(t) == towner[t][1]
+Goal(n) ==
+    CASE n = 1 -> last.l = "r.timer" /\ last.spawn # 0 /\ last.alive >= 2            \* a search starts its timer while a timer of an earlier search is still alive
+      [] n = 2 -> last.l = "call.ponderhit" /\ last.spawn # 0 /\ last.alive >= 2     \* ... a ponderhit does
+      [] n = 3 -> last.l = "r.try.ok" /\ last.x = "queued"                           \* a start meets a search that has its result but not yet released
+      [] n = 4 -> last.l = "r.try.fail" /\ \E g \in SIds : spc[g] = "done" /\ waits[g] > 0   \* a start meets a finished infinite search in its wait loop
+      [] n = 5 -> last.l = "t.exit" /\ \E g \in SIds : gen = g /\ Owner(last.i) # g /\ spc[g] \in {"work", "done"}   \* a stale timer wakes up inside a later search
+      [] n = 6 -> last.l = "t.fire" /\ cpc[1] = "wait"                               \* a timer fires while the controller is stopping the search
+      [] n = 7 -> last.l = "c.stop.set" /\ \E g \in SIds : spc[g] = "done" /\ ~Unlimited(smode[g])   \* stop between the end of the search work and the result
+      [] n = 8 -> last.l = "t.start" /\ Owner(last.i) \in SIds /\ spc[Owner(last.i)] = "dead" /\ \E g \in SIds : gen = g /\ g # Owner(last.i) /\ spc[g] \in {"work", "done"}
+                                                                                     \* a timer goroutine gets to run only when its search is over and the next one runs
+      [] n = 9 -> last.l = "call.ponderhit" /\ last.spawn # 0 /\ \E g \in SIds : smode[g] = "ponder" /\ spc[g] \in {"send", "rel"}   \* ponderhit meets a ponder search that is just answering: its timer is stale from birth
+      [] n = 10 -> last.l = "r.try.ok" /\ last.x = "granted" /\ last.alive >= 1      \* a queued start is let in while an old timer is alive
+      [] n = 11 -> last.l = "call.query" /\ last.x \in {"clearhash", "resize"} /\ \E g \in SIds : spc[g] \in {"send", "rel"}   \* hash cleared / resized while a result is being sent
+      [] n = 12 -> last.l = "r.sent" /\ Len(results) = 2 /\ results[1] > results[2]  \* (never: results come in start order - a goal TLC must NOT reach)
+      [] OTHER -> FALSE
+NoGoal1 == ~Goal(1)
+NoGoal2 == ~Goal(2)
+NoGoal3 == ~Goal(3)
+NoGoal4 == ~Goal(4)
+NoGoal5 == ~Goal(5)
+NoGoal6 == ~Goal(6)
+NoGoal7 == ~Goal(7)
+NoGoal8 == ~Goal(8)
+NoGoal9 == ~Goal(9)
+NoGoal10 == ~Goal(10)
+NoGoal11 == ~Goal(11)
+NoGoal12 == ~Goal(12)
 
 \* the lifecycle properties hold on everything generated (they are checked again on the real run)
 GProps == TypeOK /\ NoCtrlStuck /\ OneResultEach /\ OwnStopOnly /\ NoResultBeforeStop
